@@ -131,3 +131,110 @@ Theorem C02_checker_sound : forall c, c02_prop c = true ->
   end.
 Proof. exact c02_prop_sound. Qed.
 Print Assumptions C02_checker_sound.
+
+(* ---- Pipe.v against the stateful models (Server/Server.v, Client/Client.v), which their own
+        correspondence checks validate against the real classes (E2E/Bridge.v) ---- *)
+From VT Require Import Base.StateM Manager.Manager E2E.Bridge.
+From VT Require Server.Server Client.Client.
+Module S := VT.Server.Server.
+Module C := VT.Client.Client.
+
+Theorem C02_client_model_functions :
+  (forall d, C.pack d = client_pack d) /\
+  (forall d, C.split_event d = client_split_event d) /\
+  (forall d, C.star_args d = client_star_args d) /\
+  (forall ns, C.ns_or_default ns = client_ns ns) /\
+  (forall a, C.shape_result a = call_result a) /\
+  (forall enc, C.pieces_of enc = S.pieces_of enc) /\
+  (forall p t, C.type_is p t = S.type_is p t).
+Proof. exact client_model_functions. Qed.
+Print Assumptions C02_client_model_functions.
+
+(* a frame that leaves a binary packet pending: the client model's `_binary_packet` becomes the
+   state of Pipe.v's loop and nothing is delivered *)
+Theorem C02_client_model_pending : forall c loads mloads payload (s : C.cli) st',
+  client_rx_step loads mloads SerDefault (C.binpkt s) payload = Ok (Some st', []) ->
+  exists s', C.handle_eio_message c loads payload s = (s', [], Ok tt) /\ C.binpkt s' = Some st'.
+Proof. exact client_model_pending. Qed.
+Print Assumptions C02_client_model_pending.
+
+(* a frame that completes a message: the client model runs _handle_event / _handle_ack on
+   exactly the packet Pipe.v dispatches *)
+Theorem C02_client_model_dispatch : forall c loads mloads payload (s : C.cli) evs,
+  client_rx_step loads mloads SerDefault (C.binpkt s) payload = Ok (None, evs) ->
+  match C.binpkt s with
+  | None =>
+      exists r, decode loads payload = Ok r /\
+        ((type_is (rp r) EVENT = true /\ client_dispatch_event (rp r) = Ok evs /\
+          C.handle_eio_message c loads payload s =
+          C.handle_event c (pns (rp r)) (pid (rp r)) (pdata (rp r)) s) \/
+         (type_is (rp r) EVENT = false /\ type_is (rp r) ACK = true /\ client_dispatch_ack (rp r) = Ok evs /\
+          C.handle_eio_message c loads payload s =
+          C.handle_ack c (pns (rp r)) (pid (rp r)) (pdata (rp r)) s))
+  | Some r0 =>
+      exists r', add_attachment r0 payload = Ok (r', true) /\
+        (if type_is (rp r') BINARY_EVENT then client_dispatch_event (rp r') else client_dispatch_ack (rp r')) = Ok evs /\
+        C.handle_eio_message c loads payload s =
+        (C.set_binpkt None ;;;
+         (if type_is (rp r') BINARY_EVENT
+          then C.handle_event c (pns (rp r')) (pid (rp r')) (pdata (rp r'))
+          else C.handle_ack c (pns (rp r')) (pid (rp r')) (pdata (rp r')))) s
+  end.
+Proof. exact client_model_dispatch. Qed.
+Print Assumptions C02_client_model_dispatch.
+
+Theorem C02_client_model_handle_event : forall c p ns ev args id s,
+  client_dispatch_event p = Ok [EvCall ns ev args id] ->
+  C.handle_event c (pns p) (pid p) (pdata p) s =
+  (r <~ C.trigger_event c ev ns args ;;
+   match id with
+   | Some i => C.send_packet ACK (PList (client_pack r)) ns (Some i)
+   | None => ret tt
+   end) s.
+Proof. exact client_model_handle_event. Qed.
+Print Assumptions C02_client_model_handle_event.
+
+Theorem C02_server_model_pending : forall c loads mloads eio payload (s : S.srv) st',
+  S.uses_binary c = true ->
+  server_rx_step loads mloads SerDefault (aget str_eqb (S.binpkt s) eio) payload = Ok (Some st', []) ->
+  exists s', S.handle_eio_message c loads eio payload s = (s', [], Ok tt) /\
+             S.binpkt s' = aset str_eqb (S.binpkt s) eio st'.
+Proof. exact server_model_pending. Qed.
+Print Assumptions C02_server_model_pending.
+
+Theorem C02_server_model_dispatch : forall c loads mloads eio payload (s : S.srv) evs,
+  S.uses_binary c = true ->
+  server_rx_step loads mloads SerDefault (aget str_eqb (S.binpkt s) eio) payload = Ok (None, evs) ->
+  match aget str_eqb (S.binpkt s) eio with
+  | None =>
+      exists r, decode loads payload = Ok r /\
+        ((type_is (rp r) EVENT = true /\ server_dispatch_event (rp r) = Ok evs /\
+          S.handle_eio_message c loads eio payload s =
+          S.handle_event c eio (pns (rp r)) (pid (rp r)) (pdata (rp r)) s) \/
+         (type_is (rp r) EVENT = false /\ type_is (rp r) ACK = true /\ server_dispatch_ack (rp r) = Ok evs /\
+          S.handle_eio_message c loads eio payload s =
+          S.handle_ack c eio (pns (rp r)) (pid (rp r)) (pdata (rp r)) s))
+  | Some r0 =>
+      exists r', add_attachment r0 payload = Ok (r', true) /\
+        (if type_is (rp r') BINARY_EVENT then server_dispatch_event (rp r') else server_dispatch_ack (rp r')) = Ok evs /\
+        S.handle_eio_message c loads eio payload s =
+        (S.set_binpkt (fun b => adel str_eqb b eio) ;;;
+         (if type_is (rp r') BINARY_EVENT
+          then S.handle_event c eio (pns (rp r')) (pid (rp r')) (pdata (rp r'))
+          else S.handle_ack c eio (pns (rp r')) (pid (rp r')) (pdata (rp r')))) s
+  end.
+Proof. exact server_model_dispatch. Qed.
+Print Assumptions C02_server_model_dispatch.
+
+Theorem C02_server_model_handle_event : forall c eio p ns ev args id sid (s : S.srv),
+  server_dispatch_event p = Ok [EvCall ns ev args id] ->
+  sid_from_eio (S.mg s) eio ns = Some sid ->
+  is_connected (S.mg s) (Some sid) ns = true ->
+  S.handle_event c eio (pns p) (pid p) (pdata p) s =
+  (r <~ S.trigger_event c ev ns (PStr sid :: args) ;;
+   match r, id with
+   | Some v, Some i => S.send_packet c (Some eio) ACK (PList (pack v)) ns (Some i)
+   | _, _ => ret tt
+   end) s.
+Proof. exact server_model_handle_event. Qed.
+Print Assumptions C02_server_model_handle_event.
